@@ -260,10 +260,18 @@ func runC08(a *args) error {
 		want, wantEntry := liveViewOf(d)
 		wantBytes := dataBytesOf(d)
 		// real Load through three readers, into a fresh and into a used index
+		// something follows the snapshot in the stream (a trailer, the next frame): Load must consume exactly its own bytes
+		var trailer []byte
+		if len(c.Bytes) > 0 {
+			for k := 0; k < 1+r.intn(40); k++ {
+				trailer = append(trailer, byte(r.intn(256)))
+			}
+		}
+		stream := append(append([]byte(nil), c.Bytes...), trailer...)
 		for ri, mk := range []func() io.Reader{
-			func() io.Reader { return bytes.NewBuffer(c.Bytes) },
-			func() io.Reader { return iotest.OneByteReader(bytes.NewReader(c.Bytes)) },
-			func() io.Reader { return &randChunkReader{r: bytes.NewReader(c.Bytes), sizes: c.Chunks} },
+			func() io.Reader { return bytes.NewBuffer(append([]byte(nil), stream...)) },
+			func() io.Reader { return iotest.OneByteReader(bytes.NewReader(stream)) },
+			func() io.Reader { return &randChunkReader{r: bytes.NewReader(stream), sizes: c.Chunks} },
 		} {
 			for _, used := range []bool{false, true} {
 				var target *index.Hnsw
@@ -294,8 +302,8 @@ func runC08(a *args) error {
 						what = fmt.Sprintf("Len %d after load, %d before", d2.Len, d.Len)
 					case d2.BytesSize != wantBytes:
 						what = fmt.Sprintf("data-bytes counter %d after load, live data is %d", d2.BytesSize, wantBytes)
-					case len(rest) != 0:
-						what = fmt.Sprintf("%d bytes left unread", len(rest))
+					case !bytes.Equal(rest, trailer):
+						what = fmt.Sprintf("Load consumed %d bytes of a %d-byte snapshot: %d of the %d bytes that follow it are left in the reader", len(stream)-len(rest), len(c.Bytes), len(rest), len(trailer))
 					}
 				}
 				st.count(fmt.Sprintf("load:reader%d:used=%v", ri, used))
